@@ -30,7 +30,8 @@ def case(draw):
     d0, d1, sp = draw(tg.time_domain())
     rev = draw(st.integers(0, 9)) < 3
     m = draw(st.one_of(st.none(), st.integers(2, 50), st.sampled_from([2, 3, 5, 10, 10, 20, 50])))
-    return dict(d0=d1 if rev else d0, d1=d0 if rev else d1, m=m)
+    m2 = draw(st.one_of(st.none(), st.integers(2, 50)))
+    return dict(d0=d1 if rev else d0, d1=d0 if rev else d1, m=m, m2=m2)
 
 
 def strategy(tier):
@@ -50,6 +51,18 @@ def check(spec, ctx):
         return s.ticks() if m is None else s.ticks(m)
 
     tk = guarded(lambda: lib_call(run), ctx)
+    if "m2" in spec:
+        # one scale object asked twice with different counts: each answer must be what a fresh scale gives
+        m2 = spec["m2"]
+
+        def reuse():
+            s = TimeScale().domain([d0, d1])
+            first = s.ticks() if m2 is None else s.ticks(m2)
+            return first, (s.ticks() if m is None else s.ticks(m))
+
+        first, second = guarded(lambda: lib_call(reuse), ctx)
+        if second != tk:
+            raise Violation("ticks-depend-on-earlier-call", "[%s, %s]: ticks(%r) after ticks(%r) on the same scale gives %d ticks, a fresh scale gives %d" % (d0, d1, m, m2, len(second), len(tk)))
     if not isinstance(tk, list):
         raise Violation("not-a-list", "ticks() returned %s" % type(tk).__name__)
     if d1 < d0:
